@@ -12,7 +12,6 @@ from ..codecs import MODELLED, py_equal, impl_answer_dec
 from ..extend import extend, project
 from ..gen import Gen, Opts, module_text, ty_sx, val_sx, is_modelled
 
-LEVEL = "exploration"
 CODECS = ["ber", "der", "per", "uper", "oer", "jer", "xer"]
 
 
